@@ -306,6 +306,11 @@ theorem lincomb_from_constructors (n m : Nat) (hm : m < B ^ n) (hodd : m % 2 = 1
   rw [sumSpec_eq]
   exact ⟨r2, r1⟩
 
+/-- the driver's L0 reduces the operands first (`new` does); that is the same sum. -/
+theorem sumSpec_reduced (m : Nat) (abs : List (Nat × Nat)) :
+    sumSpec m (abs.map fun ab => (ab.1 % m, ab.2 % m)) = sumSpec m abs := by
+  rw [sumSpec_eq, sumSpec_eq]; exact dotSpec_mod m abs
+
 /-! ## T09.5 (lincomb) — the compile-time, runtime and boxed implementations agree -/
 
 theorem lincomb_representations_agree (n m : Nat) (hm : m < B ^ n) (hodd : m % 2 = 1)
@@ -331,6 +336,21 @@ example : opRetrieve { rep := .dyn, params := paramsNew [WMAX], store := [] }
       ([(WMAX - 1, WMAX - 1), (WMAX - 1, WMAX - 1), (WMAX - 1, WMAX - 1)].map fun ab =>
         (opNew { rep := .dyn, params := paramsNew [WMAX], store := [] } ab.1,
          opNew { rep := .dyn, params := paramsNew [WMAX], store := [] } ab.2))) = [3] := by
+  decide +kernel
+
+/-- non-vacuity for T09.2 / T09.3 / T09.5: 1 limb, modulus `0x7bde12391ea3c77b` (one leading zero
+    bit), base `0x421b341394b24700`, exponent `0x54`, 8 bits — an input whose boxed accumulator is `≥ 2m` when the
+    loop exits (both final subtractions fire), and the boxed and fixed ladders still return the same limbs; a two-term
+    multi-exponentiation on the same modulus retrieves to the product of the powers. -/
+example :
+    let ms := [0x7bde12391ea3c77b]
+    let p := paramsBoxed ms
+    let x := opNew { rep := .boxed, params := p, store := [] } 0x421b341394b24700
+    2 ≤ val (bLimbLoop (bComputePowers x ms p.one p.modNegInv) [0x54] ms p.modNegInv (startOf BWINDOW 8)
+        ((startOf BWINDOW 8).limb + 1) p.one) / val ms ∧
+    bPowMont x [0x54] 8 ms p.one p.modNegInv = powMont x [0x54] 8 ms p.one p.modNegInv ∧
+    val (retrieveMont (multiExpArray [(x, [3]), (x, [2])] 8 ms p.one p.modNegInv) ms p.modNegInv) =
+      0x421b341394b24700 ^ 5 % 0x7bde12391ea3c77b := by
   decide +kernel
 
 /-! ## modulus 1 on the `exponent_bits = 0` path (was finding C09-modulus-one-pow-zero-bits; repaired by the
